@@ -393,6 +393,12 @@ func (m *c15Model) step(s *mState, in *c15Input, out *OpResult) ([]*mState, stri
 			want = plan.Float(float64(a) / 2.0)
 		case "s[1]":
 			want = plan.Rune(rune(str[1]))
+		case "type_name(im[0]) + \"|\" + type_name(im[1]) + \"|\" + type_name(im[2])":
+			want = plan.Str("immutable-array|immutable-map|array")
+		case "is_immutable_array(mm.k) && is_array(mm.j) && !is_immutable_array(mm.j)":
+			want = plan.Bool(true)
+		case "im[0][0] + im[1].k + mm.k[0]":
+			want = plan.Int(a + b + b)
 		case "{}":
 			want = plan.Map(nil)
 		case "[]":
